@@ -29,9 +29,9 @@ import (
 	authtx "github.com/cosmos/cosmos-sdk/x/auth/tx"
 	authtypes "github.com/cosmos/cosmos-sdk/x/auth/types"
 	banktypes "github.com/cosmos/cosmos-sdk/x/bank/types"
+	"github.com/cosmos/gogoproto/proto"
 	"github.com/ethereum/go-ethereum/common"
 	ethtypes "github.com/ethereum/go-ethereum/core/types"
-	"github.com/cosmos/gogoproto/proto"
 
 	haqqtypes "github.com/haqq-network/haqq/types"
 	"github.com/haqq-network/haqq/utils"
@@ -59,7 +59,7 @@ type efMsg struct {
 	Cap      string `json:"cap"`      // dynamic
 	Tip      string `json:"tip"`      // dynamic
 	Value    string `json:"value"`
-	Prog     string `json:"prog"`    // transfer | calldata | stop | revert | invalid | loop | sstore | create
+	Prog     string `json:"prog"`           // transfer | calldata | stop | revert | invalid | loop | sstore | create
 	Nz       int    `json:"nz,string"`      // non-zero calldata bytes (calldata)
 	Z        int    `json:"z,string"`       // zero calldata bytes (calldata)
 	AlAddrs  int    `json:"alAddrs,string"` // access list addresses (access, dynamic)
@@ -268,7 +268,7 @@ func efPrepare(sc efScenario, par efParams) (*efRun, error) {
 			a := ethAddr(r.rcpt)
 			o.To, o.Data = &a, efCalldata(m.Nz, m.Z)
 		case "create":
-			o.To, o.Data = nil, efCalldata(m.Nz, m.Z) // init code: 0x01.. = ADD.. would underflow; only z is used (STOP)
+			o.To, o.Data = nil, efCalldata(0, m.Z) // init code of zero bytes: the first one is STOP, nothing is deployed
 		case "stop", "revert", "invalid", "loop", "sstore":
 			a := efProgAddr(sc.Seed, i, m)
 			if err := ew.InstallCode(ctx, a, efProgCode(m.Prog, m.Slots), nil); err != nil {
@@ -298,7 +298,9 @@ func efPrepare(sc efScenario, par efParams) (*efRun, error) {
 
 func (r *efRun) balances() M {
 	ctx := r.n.Ctx()
-	bal := func(a sdk.AccAddress) string { return bigStr(r.n.App.BankKeeper.GetBalance(ctx, a, utils.BaseDenom).Amount) }
+	bal := func(a sdk.AccAddress) string {
+		return bigStr(r.n.App.BankKeeper.GetBalance(ctx, a, utils.BaseDenom).Amount)
+	}
 	return M{"sender": bal(r.sender.Addr), "rcpt": bal(r.rcpt.Addr), "collector": bal(authtypes.NewModuleAddress(authtypes.FeeCollectorName))}
 }
 
